@@ -7,6 +7,7 @@
 
 mod common;
 mod dispatch;
+mod validators;
 
 use std::path::PathBuf;
 
@@ -34,6 +35,7 @@ fn main() {
         }
     };
     run("dispatch", &dispatch::run);
+    run("validators", &validators::run);
     if failed {
         std::process::exit(2);
     }
